@@ -32,10 +32,8 @@ _BRIDGE = None
 
 
 def bridge_info():
-    global _BRIDGE
-    if _BRIDGE is None:
-        _BRIDGE = SchemaInfo(Schema(BRIDGE_SPEC), "bridge-local")
-    return _BRIDGE
+    from .. import schemas
+    return schemas.by_name("bridge-local")
 
 
 def single_depth(sl):
@@ -133,10 +131,8 @@ _AROUND = None
 
 
 def around_info():
-    global _AROUND
-    if _AROUND is None:
-        _AROUND = SchemaInfo(Schema(AROUND_SPEC), "optional-text-local")
-    return _AROUND
+    from .. import schemas
+    return schemas.by_name("optional-text-local")
 
 
 def request(ctx, info, doc, step, res_doc, impl_ok, detail, reqs, metas, replay):
@@ -228,7 +224,7 @@ def aimed_around(ctx, rng, undo_single, reqs, metas):
         st, res = outcome(lambda: step.apply(doc))
         if st == "ok" and res.doc is not None:
             ctx.count("aimed-around-applied")
-            undo_single(ctx, info, doc, step, res.doc, reqs, metas, "aimed-around", expect_known=True)
+            undo_single(ctx, info, doc, step, res.doc, reqs, metas, "aimed-around")
 
 
 def aimed(ctx, rng, gen, undo_single, reqs, metas):
@@ -276,4 +272,4 @@ def aimed(ctx, rng, gen, undo_single, reqs, metas):
         st, res = outcome(lambda: step.apply(doc))
         if st == "ok" and res.doc is not None:
             ctx.count("aimed-bridge-applied")
-            undo_single(ctx, info, doc, step, res.doc, reqs, metas, "aimed-bridge", expect_known=True)
+            undo_single(ctx, info, doc, step, res.doc, reqs, metas, "aimed-bridge")
